@@ -1,5 +1,5 @@
 """C01 Layer merge follows the documented merge rules (reference-model monitor)."""
-from ..core import Result, out_bytes
+from ..core import crashed, Result, out_bytes
 from .. import gen, model
 from ..val import veq, clone, drop_nulls, has_marker, strings_of, show, foreign_types
 import json
@@ -260,7 +260,7 @@ def cli_check(ctx, case, res, cur, final):
     res.execs += 1
     res.labels.add('via:cli')
     bad = has_marker(final) or any(s == '$value' or s.startswith('$merge') or s.startswith('$replace:') for s in strings_of(cur))
-    if r.rc is None or r.rc not in (0, 1) or b'panic' in r.err:
+    if crashed(r.rc, r.err):
         res.violate('crash', 'bkl binary crashed or hung rc=%s: %s' % (r.rc, r.err[-300:]), layers=case['layers'])
     elif not bad:
         if r.rc != 0:
